@@ -207,7 +207,7 @@ func checkImages(conf vlib.IdxConf, rec *vlib.RunRecord, m *vlib.Model, st *stat
 	defer os.RemoveAll(imgDir)
 	opt := vlib.ImageOpts{AllPrefixesUpTo: 0}
 	if vlib.Thorough() {
-		opt.AllPrefixesUpTo = 16 << 10
+		opt.AllPrefixesUpTo = 8 << 10
 	}
 	images := vlib.BuildImages(rec.Trace, rec.Blobs, opt)
 	ids := m.SortedIDs()
@@ -244,7 +244,7 @@ func checkImages(conf vlib.IdxConf, rec *vlib.RunRecord, m *vlib.Model, st *stat
 func timeAfterShort() <-chan time.Time { return time.After(30 * time.Millisecond) }
 
 func TestC02Durability(t *testing.T) {
-	vlib.Check(t, 16, 40, func(rt *rapid.T) {
+	vlib.Check(t, 16, 24, func(rt *rapid.T) {
 		c := gen(rt)
 		var st stats
 		f := vlib.Guard("run", func() *vlib.Failure { return prop(c, &st) })
